@@ -793,6 +793,9 @@ func TestVerifC13Validating(t *testing.T) {
 					c.Count("converse_misses_v_cause_subpriority_label_changed", 1)
 				case batch && qos == "none":
 					c.Count("converse_misses_v_cause_batch_pod_be_only_by_default", 1)
+				case (qos == "LSR" || qos == "LSE") && c13WholeCPU(newPod) == "whole-in-milli":
+					// whole only when every container is rounded up to 1m on its own; the code rounds the pod total
+					c.Count("converse_misses_v_cause_lsx_cpu_whole_only_per_container_milli", 1)
 				case len(brokenB) > 0 || len(c13Protocol(decNew, decOld, false)) > 0:
 					c.Count("converse_misses_v_cause_other_reading", 1)
 				default:
